@@ -299,12 +299,15 @@ async def _min_max(
     :param invert: compute ``max`` if ``True`` and ``min`` otherwise
     """
     async with ScopedIter(iterable) as item_iter:
-        best = await anext(item_iter, default=default)
-        # this implies that item_iter is empty and default is __MIN_MAX_DEFAULT
-        if best is __MIN_MAX_DEFAULT:  # type: ignore
-            name = "max" if invert else "min"
-            raise ValueError(f"{name}() arg is an empty sequence")
-        elif key is None:
+        try:
+            best = await anext(item_iter)
+        except StopAsyncIteration:
+            if default is __MIN_MAX_DEFAULT:  # type: ignore
+                name = "max" if invert else "min"
+                raise ValueError(f"{name}() arg is an empty sequence") from None
+            # the default is returned as is, it is not subject to ``key``
+            return default
+        if key is None:
             async for item in item_iter:
                 if invert ^ (item < best):
                     best = item
